@@ -198,6 +198,81 @@ TWIN_ENTRIES = [
 ]
 
 
+NESTED_ENTRIES = [
+    ("fr", 'S(Pro("je").pe(2),VP(V("laver"),NP(D("mon").pe(2),N("voiture"))))'),
+    ("fr", 'S(NP(D("le"),N("chat")),VP(V("manger"),NP(D("un"),N("souris")),PP(P("dans"),NP(D("le"),N("jardin")))))'),
+    ("en", 'S(Pro("I").pe(2),VP(V("wash"),NP(D("my").pe(2),N("car"))))'),
+    ("en", 'S(NP(D("the"),N("cat")),VP(V("eat"),NP(D("a"),N("mouse"))))'),
+    ("fr", 'root(V("laver"),subj(Pro("je").pe(2)),comp(N("voiture"),det(D("mon").pe(2))))'),
+    ("en", 'root(V("eat"),subj(N("cat"),det(D("the"))),comp(N("mouse"),det(D("a"))))'),
+    ("fr", 'S(NP(D("le"),N("fille")),VP(V("être"),AP(Adv("très"),A("beau"))))'),
+]
+ROOT_OPS = [("typ", '{"refl":True}'), ("typ", '{"maje":True}'), ("typ", '{"neg":True}'), ("typ", '{"pas":True}'), ("typ", '{"int":"yon"}'),
+            ("t", '"f"'), ("t", '"pc"'), ("n", '"p"'), ("a", '"!"'), ("add", 'Q("zz")')]
+
+
+def run_nested_clone_scenarios():
+    """the clone of a constituent NESTED in a larger expression is independent of that expression: options set later on
+    the original sentence (or on any ancestor of the cloned node) change neither the state nor the text of the clone, and
+    options set on the clone leave the original as it was"""
+    fails = []
+    n = 0
+    for lang, src in NESTED_ENTRIES:
+        with Quiet():
+            try:
+                ref = build(src, lang)
+                paths = [list(p) for p, nd in walk(ref) if len(p) >= 1 and not hasattr(nd, "lemma")]
+            except Exception:  # noqa
+                continue
+        for path in paths:
+            with Quiet():
+                try:
+                    x2 = build(src, lang)
+                    c2 = at(x2, path).clone()
+                    ref_snap = snapshot(c2)
+                    ref_text = c2.realize()
+                    orig_text = build(src, lang).realize()
+                except Exception:  # noqa
+                    continue
+            anc = [path[:k] for k in range(len(path))]      # the root and every proper ancestor
+            for apath in anc:
+                for m, a in ROOT_OPS:
+                    with Quiet():
+                        try:
+                            x = build(src, lang)
+                            c = at(x, path).clone()
+                            node = at(x, apath)
+                            if m == "typ" and node.constType not in ("S", "SP", "VP", "root", "subj", "comp", "mod", "det", "coord"):
+                                continue
+                            apply_op(x, [apath, m, a])
+                            n += 1
+                            cs = snapshot(c)
+                            ct = c.realize()
+                        except Exception:  # noqa
+                            continue
+                    inp = {"src": src, "lang": lang, "cloned_node": path, "then_on_original_at": apath, "op": [m, a]}
+                    if cs != ref_snap:
+                        fails.append(("nested-clone:option-on-the-original-changes-the-clone:%s" % m, inp, {"field": snap_diff(cs, ref_snap)}))
+                    elif ct != ref_text:
+                        fails.append(("nested-clone:text-of-the-clone-depends-on-later-options-of-the-original:%s" % m, inp, {"clone": ct, "clone_taken_alone": ref_text}))
+            # the other direction: options on the clone, the original keeps its text
+            for m, a in ops_for_kind(at(ref, path).constType, lang)[:6]:
+                with Quiet():
+                    try:
+                        x = build(src, lang)
+                        c = at(x, path).clone()
+                        apply_op(c, [[], m, a])
+                        c.realize()
+                        n += 1
+                        xt = x.realize()
+                    except Exception:  # noqa
+                        continue
+                if xt != orig_text:
+                    fails.append(("nested-clone:option-on-the-clone-changes-the-original:%s" % m,
+                                  {"src": src, "lang": lang, "cloned_node": path, "op_on_clone": [m, a]}, {"original": xt, "alone": orig_text}))
+    return n, fails
+
+
 def run_twin_scenarios():
     """exhaustive over TWIN_ENTRIES x every node x every option of the node's vocabulary: build two separate copies and a
     third one LATER, apply the option to the first: the second and the third keep the snapshot and the text of a copy built
@@ -559,6 +634,11 @@ def run(ctx, deep=False):
     ctx.notes["twin_scenarios"] = ntw
     for name, inp, detail in tfails:
         ctx.count({"twin-scenario": name, "src": inp["src"], "op": inp.get("op")}, name, trivial=False)
+        ctx.fail(name, inp, detail)
+    nnc, nfails = run_nested_clone_scenarios()
+    ctx.notes["nested_clone_scenarios"] = nnc
+    for name, inp, detail in nfails:
+        ctx.count({"nested-clone-scenario": name, "src": inp["src"], "op": inp.get("op") or inp.get("op_on_clone")}, name, trivial=False)
         ctx.fail(name, inp, detail)
     for name, detail in run_list_scenarios():
         ctx.count({"list-scenario": name}, detail, trivial=False)
